@@ -124,6 +124,39 @@ def _preset_defs():
     return out
 
 
+def _elide_default_attributes(chart_space):
+    """remove from the c:chartSpace tree every attribute whose value equals the default the XSD declares for it (walking the element
+    types from CT_ChartSpace down); returns the list of 'tag/@attr' removed"""
+    from lxml import etree
+
+    from pptx.oxml.ns import _nsmap
+    from pyvc import xsd
+
+    S = xsd.load()
+    pfx = {v: k for k, v in _nsmap.items()}
+    ns = _nsmap["c"]
+    g = S.elements[(ns, "chartSpace")]
+    removed = []
+
+    def walk(el, ct):
+        for k, a in ct.attrs.items():
+            if a.default is not None and el.get(k) is not None and el.get(k) == a.default:
+                del el.attrib[k]
+                removed.append("%s/@%s" % (etree.QName(el).localname, k))
+        for ch in el:
+            if not isinstance(ch.tag, str):
+                continue
+            q = etree.QName(ch)
+            tag = "%s:%s" % (pfx.get(q.namespace, "?"), q.localname)
+            ty = ct.child_type(tag)
+            if ty is None or ty not in S.complex:
+                continue
+            walk(ch, S.complex_type(ty))
+
+    walk(chart_space, S.complex_type(S.qname(g, g.get("type"))))
+    return removed
+
+
 def _parse_gds(gds):
     want, ok = [], True
     for name, fmla in gds:
@@ -323,11 +356,34 @@ def _native_roundtrips(tier="quick", seed=0):
         n += 1
         got = gf.chart.chart_type
         ok = got == ct
+        detail = "add_chart(%s) reads back %s" % (name, got)
+        if ok:
+            # the same chart as another producer may write it: attributes that carry the schema's default value left out (the XSD
+            # default is what a reader must assume), then also the optional c:grouping element itself
+            import copy as _copy
+
+            cs = gf.chart.part._element
+            saved = _copy.deepcopy(list(cs))
+            for variant in ("default-valued attributes omitted", "and c:grouping omitted"):
+                removed = _elide_default_attributes(cs) if variant.startswith("default") else [g_.getparent().remove(g_) or "c:grouping" for g_ in cs.xpath(".//c:grouping[not(@val)]")]
+                if not removed:
+                    continue
+                try:
+                    got2 = gf.chart.chart_type
+                except Exception as e:
+                    got2 = repr(e)
+                if got2 != ct:
+                    ok, detail = False, "chart written as %s with %s (%s): chart_type reads %s" % (name, variant, ", ".join(sorted(set(removed)))[:200], got2)
+                    break
+            for ch in list(cs):
+                cs.remove(ch)
+            for ch in saved:
+                cs.append(ch)
         rec = {"name": nm, "base": nm, "kind": "ground", "status": "discharged" if ok else "refuted", "backend": "native", "time": 0, "path": 0,
-               "claim": "add_chart(t).chart.chart_type == t"}
+               "claim": "add_chart(t).chart.chart_type == t, also with schema defaults left implicit"}
         if not ok:
             rec["model"] = {"chart_type": name}
-            rec["replay"] = {"confirmed": True, "detail": "add_chart(%s) reads back %s" % (name, got), "witness_class": "chart-type-readback"}
+            rec["replay"] = {"confirmed": True, "detail": detail, "witness_class": "chart-type-readback"}
         obls.append(rec)
     # every XML-mapped enumeration in ONE process, in two visiting orders: a member must map back to itself whatever other
     # enumerations have been consulted before (no state shared between enumerations)
